@@ -152,10 +152,12 @@ def build_variant(name, verbose=True):
         rc, o = sh(["ar", "rcs", lib] + objs)
         if rc:
             sys.stderr.write(o); raise SystemExit(2)
-        cmd = [cxx] + v["san"] + cov + ["-g"] + simobjs + [lib, "-lm", "-lpthread", "-o", exe]
+        tmpexe = exe + ".new.%d" % os.getpid()
+        cmd = [cxx] + v["san"] + cov + ["-g"] + simobjs + [lib, "-lm", "-lpthread", "-o", tmpexe]
         rc, o = sh(cmd)
         if rc:
             sys.stderr.write("LINK ERROR: %s\n%s\n" % (" ".join(cmd), o)); raise SystemExit(2)
+        os.replace(tmpexe, exe)  # atomic: running sweeps keep the old inode
         open(lstamp, "w").write(linkkey)
     if verbose:
         sys.stderr.write("[build] %s: %d compiled, %.1fs\n" % (name, n, time.time() - t0))
